@@ -534,6 +534,30 @@ pub fn run(run: &RunInfo) -> Summary {
         W::Bytes(ii) => byte_level(&items[*ii], &decs, thorough, acc),
         W::Struct(ii) => structure_aware(&items[*ii], &table, &decs, thorough, acc),
     });
+    // once more with a logger installed at the most verbose level: the arguments of logging
+    // statements are only evaluated then, and they slice and format the same untrusted bytes
+    {
+        crate::util::logging(true);
+        let mut lw: Vec<W> = vec![];
+        for di in 0..decs.len() {
+            lw.push(W::Short(di, None));
+        }
+        for ii in 0..items.len() {
+            lw.push(W::Struct(ii));
+        }
+        let sub = par_for(lw.len(), |ix, acc| {
+            let before = acc.get("cases");
+            match &lw[ix] {
+                W::Short(di, first) => short_bodies(&decs[*di], *first, 1, acc),
+                W::Struct(ii) => structure_aware(&items[*ii], &table, &decs, thorough, acc),
+                W::Bytes(_) => {}
+            }
+            let n = acc.get("cases") - before;
+            acc.count("cases_with_logger", n);
+        });
+        crate::util::logging(false);
+        acc.merge(sub);
+    }
     // the same truncations arriving over a connection that ends: every reply parser behind the
     // real transport must return (an error), never wait or spin
     {
